@@ -9,3 +9,4 @@ CONSTANTS
     InitWs = {}
     InitCache = {}
     Prompts = {}
+    Twins <- TwinsDef
